@@ -307,6 +307,153 @@ theorem rkf45_quadrature5 (b0 b1 b2 b3 b4 dt u t : K) :
       = u + (cubicIntegral b0 b1 b2 b3 t dt + b4 * ((t + dt) ^ 5 - t ^ 5) / 5) := by
   simp only [rkf45High, rkfStages, cubicIntegral]; gen_simp; push_cast; ring
 
+/-! ### stage times: every step depends on the rate only through its values at the stage times of the scheme
+
+The clause "the right-hand side is evaluated at the stage times of the scheme", as a statement about the
+executable steps themselves (the definitions the driver evaluates against the real steppers on every run): two
+rates that agree - for every state - at the stage times of a step give the same step, whatever they do at other
+times.  First for arbitrary coefficient tables, then for the extracted ones. -/
+
+
+/-- two rates agree (for every state) at all the times of a list -/
+def AgreeAt (f g : Rate K) (ts : List K) : Prop := ∀ s ∈ ts, ∀ x, f x s = g x s
+
+theorem AgreeAt.at {f g : Rate K} {ts : List K} (h : AgreeAt f g ts) {s : K} (hs : s ∈ ts) : ∀ x, f x s = g x s :=
+  h s hs
+
+/-- **Euler evaluates the rate at `t` only** -/
+theorem euler_stage_times (f g : Rate K) (dt u t : K) (h : AgreeAt f g (eulerTimes t dt)) :
+    eulerStep f dt u t = eulerStep g dt u t := by
+  simp only [eulerStep, h.at (List.mem_singleton.mpr rfl)]
+
+/-- a four-stage explicit Runge-Kutta step evaluates the rate at `t + c_i dt` only (any tableau) -/
+theorem rk4_stage_times_tab (T : RK4Tab K) (f g : Rate K) (dt u t : K)
+    (h : AgreeAt f g (rk4Times T t dt)) :
+    rk4Step T f dt u t = rk4Step T g dt u t := by
+  have h1 := h.at (s := t + T.c1 * dt) (by simp [rk4Times])
+  have h2 := h.at (s := t + T.c2 * dt) (by simp [rk4Times])
+  have h3 := h.at (s := t + T.c3 * dt) (by simp [rk4Times])
+  have h4 := h.at (s := t + T.c4 * dt) (by simp [rk4Times])
+  simp only [rk4Step, h1, h2, h3, h4]
+
+/-- the Fehlberg step (returned state, error estimate, embedded higher-order value) evaluates the rate at
+`t + a_i dt` only (any tableau) -/
+theorem rkf45_stage_times_tab (T : RKFTab K) (f g : Rate K) (dt u t : K)
+    (h : AgreeAt f g (rkfTimes T t dt)) :
+    rkf45Step T f dt u t = rkf45Step T g dt u t ∧ rkf45High T f dt u t = rkf45High T g dt u t := by
+  have h1 := h.at (s := t + T.a1 * dt) (by simp [rkfTimes])
+  have h2 := h.at (s := t + T.a2 * dt) (by simp [rkfTimes])
+  have h3 := h.at (s := t + T.a3 * dt) (by simp [rkfTimes])
+  have h4 := h.at (s := t + T.a4 * dt) (by simp [rkfTimes])
+  have h5 := h.at (s := t + T.a5 * dt) (by simp [rkfTimes])
+  have h6 := h.at (s := t + T.a6 * dt) (by simp [rkfTimes])
+  have hs : rkfStages T f dt u t = rkfStages T g dt u t := by
+    simp only [rkfStages, h1, h2, h3, h4, h5, h6]
+  simp only [rkf45Step, rkf45High, hs, and_self]
+
+/-- implicit Euler: predictor at `t`, every iteration at `t + dt` -/
+theorem implicit_stage_times [HasNormSq K] [LT K] [DecidableLT K] (f g : Rate K) (maxiter : Nat) (maxerror dt : K)
+    (us : List K) (t : K) (h : AgreeAt f g (implicitTimes t dt)) :
+    implicitStep f maxiter maxerror dt us t = implicitStep g maxiter maxerror dt us t := by
+  have h1 := h.at (s := t) (by simp [implicitTimes])
+  have h2 := h.at (s := t + dt) (by simp [implicitTimes])
+  have e1 : implicitIter f dt t = implicitIter g dt t := by
+    funext u x; simp only [implicitIter, h2]
+  have e2 : implicitPredict f dt t = implicitPredict g dt t := by
+    funext u; simp only [implicitPredict, h1]
+  simp only [implicitStep, e1, e2]
+
+/-- Crank-Nicolson: rates at `t` and `t + dt` -/
+theorem cn_stage_times [HasNormSq K] [LT K] [DecidableLT K] (α : K) (f g : Rate K) (maxiter : Nat) (maxerror dt : K)
+    (us : List K) (t : K) (h : AgreeAt f g (implicitTimes t dt)) :
+    cnStep α f maxiter maxerror dt us t = cnStep α g maxiter maxerror dt us t := by
+  have h1 := h.at (s := t) (by simp [implicitTimes])
+  have h2 := h.at (s := t + dt) (by simp [implicitTimes])
+  have e1 : cnIter α f dt t = cnIter α g dt t := by
+    funext u x; simp only [cnIter, h1, h2]
+  simp only [cnStep, e1]
+
+/-- Adams-Bashforth (any coefficient table): rates at `t + tPrev dt` and `t + tCur dt`; the first-call
+initialisation at `t_start` -/
+theorem ab2_stage_times_tab (T : AB2Tab K) (f g : Rate K) (dt t u p : K)
+    (h : AgreeAt f g (ab2Times T t dt)) :
+    ab2Step T f dt t u p = ab2Step T g dt t u p := by
+  have h1 := h.at (s := t + T.tPrev * dt) (by simp [ab2Times])
+  have h2 := h.at (s := t + T.tCur * dt) (by simp [ab2Times])
+  simp only [ab2Step, h1, h2]
+
+theorem ab2Init_stage_times (T : AB2Tab K) (f g : Rate K) (dt ts u : K) (h : AgreeAt f g [ts]) :
+    ab2Init T f dt ts u = ab2Init T g dt ts u := by
+  simp only [ab2Init, h.at (List.mem_singleton.mpr rfl)]
+
+/-- step doubling with Euler steps (`AdaptiveSolverBase`): rates at `t` and `t + dt/2` -/
+theorem eulerRichardson_stage_times [LT K] [DecidableLT K] (f g : Rate K) (us : List K) (t dt : K)
+    (h : AgreeAt f g [t, t + dt / 2]) :
+    eulerRichardson f us t dt = eulerRichardson g us t dt := by
+  have h1 := h.at (s := t) (by simp)
+  have e : t + ((1 : Nat) : K) / ((2 : Nat) : K) * dt = t + dt / 2 := by push_cast; ring
+  have h2 := h.at (s := t + dt / 2) (by simp)
+  simp only [eulerRichardson, richardson, eulerVar, e, h1, h2]
+
+
+
+/-- **the extracted Runge-Kutta stage times** (`rk4Times rk4Tab` is what the driver reports and the check compares with
+the times the real stepper evaluates the rate at) -/
+theorem rk4Times_extracted (t dt : K) : rk4Times rk4Tab t dt = [t, t + dt / 2, t + dt / 2, t + dt] := by
+  have e0 : t + (rk4Tab : RK4Tab K).c1 * dt = t := by gen_simp; push_cast; ring
+  have e1 : t + (rk4Tab : RK4Tab K).c2 * dt = t + dt / 2 := by gen_simp; push_cast; ring
+  have e2 : t + (rk4Tab : RK4Tab K).c3 * dt = t + dt / 2 := by gen_simp; push_cast; ring
+  have e3 : t + (rk4Tab : RK4Tab K).c4 * dt = t + dt := by gen_simp; push_cast; ring
+  simp only [rk4Times, e0, e1, e2, e3]
+
+/-- **the extracted Fehlberg stage times** -/
+theorem rkfTimes_extracted (t dt : K) :
+    rkfTimes rkfTab t dt = [t, t + dt / 4, t + 3 / 8 * dt, t + 12 / 13 * dt, t + dt, t + dt / 2] := by
+  have e1 : t + (rkfTab : RKFTab K).a1 * dt = t := by gen_simp; push_cast; ring
+  have e2 : t + (rkfTab : RKFTab K).a2 * dt = t + dt / 4 := by gen_simp; push_cast; ring
+  have e3 : t + (rkfTab : RKFTab K).a3 * dt = t + 3 / 8 * dt := by gen_simp; push_cast; ring
+  have e4 : t + (rkfTab : RKFTab K).a4 * dt = t + 12 / 13 * dt := by gen_simp; push_cast; ring
+  have e5 : t + (rkfTab : RKFTab K).a5 * dt = t + dt := by gen_simp; push_cast; ring
+  have e6 : t + (rkfTab : RKFTab K).a6 * dt = t + dt / 2 := by gen_simp; push_cast; ring
+  simp only [rkfTimes, e1, e2, e3, e4, e5, e6]
+
+/-- **the extracted Adams-Bashforth stage times**, interpreted and compiled loop -/
+theorem ab2Times_extracted (t dt : K) :
+    ab2Times ab2Tab t dt = [t - dt, t] ∧ ab2Times ab2TabNumba t dt = [t - dt, t] := by
+  have e1 : t + (ab2Tab : AB2Tab K).tPrev * dt = t - dt := by gen_simp; push_cast; ring
+  have e2 : t + (ab2Tab : AB2Tab K).tCur * dt = t := by gen_simp; push_cast; ring
+  have key : ab2Times ab2Tab t dt = [t - dt, t] := by simp only [ab2Times, e1, e2]
+  exact ⟨key, by rw [ab2_numba_same]; exact key⟩
+
+/-- **Runge-Kutta evaluates the rate at `t`, `t + dt/2`, `t + dt` only** (the extracted stage times) -/
+theorem rk4_stage_times (f g : Rate K) (dt u t : K) (h : AgreeAt f g [t, t + dt / 2, t + dt]) :
+    rk4Step rk4Tab f dt u t = rk4Step rk4Tab g dt u t := by
+  apply rk4_stage_times_tab
+  intro s hs
+  rw [rk4Times_extracted] at hs
+  exact h s (by simp only [List.mem_cons, List.not_mem_nil, or_false] at hs ⊢; tauto)
+
+/-- **the Fehlberg step evaluates the rate at `t + a_i dt`, `a = 0, 1/4, 3/8, 12/13, 1, 1/2` only** -/
+theorem rkf45_stage_times (f g : Rate K) (dt u t : K)
+    (h : AgreeAt f g [t, t + dt / 4, t + 3 / 8 * dt, t + 12 / 13 * dt, t + dt, t + dt / 2]) :
+    rkf45Step rkfTab f dt u t = rkf45Step rkfTab g dt u t ∧ rkf45High rkfTab f dt u t = rkf45High rkfTab g dt u t := by
+  apply rkf45_stage_times_tab
+  intro s hs
+  rw [rkfTimes_extracted] at hs
+  exact h s hs
+
+/-- **Adams-Bashforth evaluates the rates at `t - dt` and `t` only**, interpreted and compiled loop -/
+theorem ab2_stage_times (f g : Rate K) (dt t u p : K) (h : AgreeAt f g [t - dt, t]) :
+    ab2Step ab2Tab f dt t u p = ab2Step ab2Tab g dt t u p
+    ∧ ab2Step ab2TabNumba f dt t u p = ab2Step ab2TabNumba g dt t u p := by
+  have key : ab2Step ab2Tab f dt t u p = ab2Step ab2Tab g dt t u p := by
+    apply ab2_stage_times_tab
+    intro s hs
+    rw [(ab2Times_extracted t dt).1] at hs
+    exact h s hs
+  exact ⟨key, by rw [ab2_numba_same]; exact key⟩
+
+
 end algebra
 
 /-! ### order conditions of the two embedded Fehlberg solutions (rational arithmetic on the
